@@ -50,6 +50,14 @@ func External(p *Process) error {
 		return err
 	}
 
+	if p.ExitNum == 0 && p.SystemProcess.External() &&
+		p.SystemProcess.State() != nil && p.SystemProcess.ExitNum() < 0 {
+		// the command was terminated by a signal (execFork deliberately doesn't
+		// report that as an error) so there is no exit code: it must still
+		// count as failed for `&&`, `||` and `try`
+		p.ExitNum = 1
+	}
+
 	return nil
 }
 
